@@ -393,35 +393,28 @@ def replay(obj):
     f = obj.get("failure") or {}
     inp = f.get("input") or {}
     print(json.dumps(obj.get("type")), f.get("what"))
+    if not inp:
+        print("no failing input recorded (proof / correspondence broke):", json.dumps(obj.get("no_longer_checks") or obj.get("correspondence_differences"))[:2000])
+        return 1
     Burst, BT, DT, SP, ST, EMB = lib()
     payload_text.kinds = {k.name: k for k in c03.kinds()}
-
-    class R:
-        def __init__(self):
-            self.failures = []
-
-        def fail(self, kind, input, what, expected=None, actual=None):
-            self.failures.append((kind, what, expected, actual))
-
-        def count(self, *a, **k):
-            pass
-
-    r = R()
+    r = c03.ReplayCtx()
+    pairs = []
     if inp.get("mode") == "data":
         srcs = {(k, s.name): (k, dt, s, t) for k, dt, s, t in payload_sources()}
         kname, dt, src, _ = srcs[(inp["kind"], inp["c03kind"])]
         var = next(v for v in src.variants if v.name == inp["variant"])
-        pb, pp = [], []
-        check_data(r, kname, dt, src, var, inp["fields"], inp["cc"], SP[inp["sync"]], pb, pp, bts=("D", "V", "U"))
-        for line, out in pb + pp:
-            print("model line:", line[:200])
-            print("implementation:", out[:400])
+        pb = []
+        check_data(r, kname, dt, src, var, inp["fields"], inp["cc"], SP[inp["sync"]], pb, pairs, bts=("D", "V", "U"))
+        pairs = pb + pairs
     elif inp.get("mode") == "voice":
-        pp = []
-        check_voice(r, bitarray(inp["bits"]), inp["burst_type"], "replay", inp, pp)
-        for line, out in pp:
-            print("model line:", line)
-            print("implementation:", out)
+        check_voice(r, bitarray(inp["bits"]), inp["burst_type"], "replay", inp, pairs)
+    for line, out in pairs:
+        print("model line    :", line[:400])
+        print("implementation:", out[:700])
+        print("model         :", c03.model_says(PROP, line)[:700])
     for kind, what, exp, act in r.failures:
         print("STILL FAILS:", kind, what, "expected:", exp, "actual:", act)
+    if not r.failures:
+        print("the recorded input no longer fails on this tree")
     return 1 if r.failures else 0
